@@ -136,6 +136,9 @@ func runScenario(d *driver, kind string) {
 				li = d.restart(li, d.r.Intn(2) == 0)
 				continue
 			}
+			if d.r.Intn(2) == 0 {
+				li.in.plan = d.planRandom(0.3) // the issuer fetches/uploads of the submissions fail too
+			}
 			d.submitSome(li, d.r.Intn(5))
 			li.in.plan = d.planRandom(0.15)
 			d.round(li)
@@ -190,6 +193,12 @@ func runScenario(d *driver, kind string) {
 		if d.alive(li) && d.r.Intn(2) == 0 {
 			d.stop(li)
 			d.submitSome(li, 2)
+			// every kind of resubmission after the stop must fail too (also one the cache could answer)
+			for k, e := range d.recent {
+				if k < 6 {
+					d.submit(li, e, k%2 == 0)
+				}
+			}
 		}
 	case "clock":
 		li := d.boot(0)
@@ -218,6 +227,7 @@ func runScenario(d *driver, kind string) {
 			}
 		}
 	case "two":
+		d.multi = true
 		a := d.boot(0)
 		d.submitSome(a, 1+d.r.Intn(3))
 		d.round(a)
@@ -285,6 +295,7 @@ func runScenario(d *driver, kind string) {
 			}
 		}
 	case "startup":
+		d.multi = true
 		li := d.boot(0)
 		d.submitSome(li, 2)
 		d.round(li)
@@ -427,6 +438,65 @@ func runScenario(d *driver, kind string) {
 		} else {
 			d.stats["tamperfull-refused"]++
 		}
+	case "storm":
+		d.storm()
+	case "recompute":
+		// cmd/recompute-cache (the real binary) on live, lost, partially refilled and foreign caches
+		li := d.boot(0)
+		big := d.r.Intn(3) == 0
+		if big {
+			d.submitMany(li, 250+d.r.Intn(12))
+			d.round(li)
+			d.round(li)
+		}
+		d.submitSome(li, 2+d.r.Intn(4))
+		d.round(li)
+		d.round(li)
+		if d.r.Intn(2) == 0 {
+			d.recompute(li, 7) // in parallel with production: every row is already there
+		}
+		if d.r.Intn(4) == 0 {
+			d.recompute(li, 8) // a foreign seed: the checkpoint does not verify
+		}
+		// lose the cache; duplicates may now be sequenced again
+		li2 := d.restart(li, false)
+		if li2 == nil {
+			return
+		}
+		if d.r.Intn(2) == 0 {
+			for _, e := range d.recent {
+				if d.r.Intn(3) == 0 {
+					d.submit(li2, e, false)
+				}
+			}
+			d.submitSome(li2, 2)
+			d.round(li2)
+			d.round(li2)
+		}
+		d.recompute(li2, 7) // rebuild: first occurrence wins unless a row is already there
+		for _, e := range d.recent {
+			if d.r.Intn(2) == 0 {
+				d.submit(li2, e, false)
+			}
+		}
+		d.submitSome(li2, 3)
+		d.round(li2)
+		d.round(li2)
+		if d.r.Intn(2) == 0 {
+			// rebuild the cache file of a dead instance, then let a restarted instance take it over
+			d.kill(li2)
+			d.recompute(li2, 7)
+			if li3 := d.restart(li2, true); li3 != nil {
+				for _, e := range d.recent {
+					if d.r.Intn(2) == 0 {
+						d.submit(li3, e, false)
+					}
+				}
+				d.round(li3)
+				d.round(li3)
+				d.recompute(li3, 7)
+			}
+		}
 	case "crashenum":
 		// systematic crash placement: history number h selects the crash position inside the round
 		// (h mod 12) and, for h >= 12, inside the recovery ((h/12) mod 10); base scenario alternates
@@ -511,6 +581,79 @@ func (d *driver) tamperRandom(saved map[string][]byte) {
 	sort.Strings(keys)
 	if len(keys) == 0 {
 		return
+	}
+	// a checkpoint validly signed with the log's own key that contradicts (same size, other root),
+	// overtakes (larger) or trails (smaller) the lock checkpoint: what an instance running against
+	// another lock store would have published
+	if d.r.Intn(4) == 0 && len(d.insts) > 0 {
+		var lk cpTuple
+		for _, v := range w.lock {
+			if t := w.canon.parse(v); t.ok && t.key == d.insts[0].keyID {
+				lk = t
+			}
+		}
+		if lk.ok {
+			size := lk.size + int64(d.r.Intn(3)) - 1
+			if size < 0 {
+				size = 0
+			}
+			var root [32]byte
+			d.r.Read(root[:])
+			if signed, err := ctlog.VerifSignTreeHead(d.insts[0].cfg, size, root, lk.ts); err == nil {
+				t := w.canon.parse(signed)
+				w.objects["checkpoint"] = object{signed, false}
+				w.logf(nil, "ev|tamper|checkpoint|cp|%s|%d|%s|%d|%d|-", t.origin, t.size, hx(t.root[:]), t.ts, t.key)
+				d.stats["tamper"]++
+				d.stats["tamper-forged-checkpoint"]++
+				w.mon.tampered = true
+				return
+			}
+		}
+	}
+	// rearrange the leaves of the right-edge partial data tile: every leaf stays a genuine leaf of
+	// that tile, only not at its own position (one overwritten by its neighbour, or two swapped)
+	if d.r.Intn(5) == 0 {
+		var edge string
+		for _, c := range keys {
+			if strings.HasPrefix(c, "tile/data/") && strings.Contains(c, ".p/") {
+				if edge == "" || len(c) > len(edge) || (len(c) == len(edge) && c > edge) {
+					edge = c
+				}
+			}
+		}
+		if edge != "" {
+			o := w.objects[edge]
+			raw, _ := gunzip(o.data)
+			var leaves [][]byte
+			for rest := raw; len(rest) > 0; {
+				_, r2, err := sunlight.ReadTileLeaf(rest)
+				if err != nil {
+					leaves = nil
+					break
+				}
+				leaves = append(leaves, rest[:len(rest)-len(r2)])
+				rest = r2
+			}
+			if len(leaves) >= 2 {
+				i := d.r.Intn(len(leaves) - 1)
+				if d.r.Intn(2) == 0 {
+					leaves[i+1] = leaves[i]
+				} else {
+					leaves[i], leaves[i+1] = leaves[i+1], leaves[i]
+				}
+				newRaw := bytes.Join(leaves, nil)
+				var b bytes.Buffer
+				zw := gzip.NewWriter(&b)
+				zw.Write(newRaw)
+				zw.Close()
+				w.objects[edge] = object{data: b.Bytes(), imm: o.imm}
+				w.logf(nil, "ev|tamper|%s|bytes|%s", edge, hx(newRaw))
+				d.stats["tamper"]++
+				d.stats["tamper-rearranged-edge-leaves"]++
+				w.mon.tampered = true
+				return
+			}
+		}
 	}
 	k := keys[d.r.Intn(len(keys))]
 	if d.r.Intn(3) == 0 { // prefer the objects LoadLog actually reads
